@@ -4,6 +4,8 @@ package zz_verif
 
 import (
 	"bytes"
+	"context"
+	"errors"
 	"encoding/hex"
 
 	"berty.tech/go-ipfs-log/entry"
@@ -19,8 +21,23 @@ var c20ids = []string{"alice", "bob", "carol"}
 // H_C20_keys: a symbolic sequence of create / get / has operations on up to three ids across two keystore
 // instances sharing one datastore (the second instance is what a restart or an evicted cache looks like:
 // key present in the store, absent from the cache).
+// failDS is a datastore whose Put can be made to fail (a full disk, a closed store): a CreateKey that fails
+// has not created the key.
+type failDS struct {
+	datastore.Datastore
+	fail bool
+}
+
+func (f *failDS) Put(c context.Context, k datastore.Key, v []byte) error {
+	if f.fail {
+		return errors.New("put failed")
+	}
+	return f.Datastore.Put(c, k, v)
+}
+
 func H_C20_keys() {
-	ds := datastore.NewMapDatastore()
+	ds := &failDS{Datastore: datastore.NewMapDatastore()}
+	failPut := vx.Param("FAILPUT", 0) == 1
 	ks := make([]*keystore.Keystore, 2)
 	for i := range ks {
 		k, err := keystore.NewKeystore(ds)
@@ -37,6 +54,14 @@ func H_C20_keys() {
 		case 0: // create (only ids that do not exist yet: CreateKey replaces an existing key by design)
 			if _, ok := created[id]; ok {
 				vx.Assume(false)
+			}
+			if failPut && vx.Choice("putFails", 2) == 1 {
+				ds.fail = true
+				_, err := ks[inst].CreateKey(ctx, id)
+				ds.fail = false
+				vx.Assert("C20", err != nil, "CreateKey reports the failure of the datastore")
+				vx.Cover("create-failed")
+				break // the id stays "never created"
 			}
 			k, err := ks[inst].CreateKey(ctx, id)
 			vx.Assert("C20", err == nil && k != nil, "CreateKey succeeds")
